@@ -20,6 +20,7 @@ import (
 	"strings"
 
 	"wa-lang.org/wa/internal/3rdparty/wazero"
+	"wa-lang.org/wa/internal/3rdparty/wazero/api"
 	"wa-lang.org/wa/internal/wat/watutil"
 	"wa-lang.org/wa/internal/wat/watutil/wat2c"
 )
@@ -43,10 +44,14 @@ type SpecCase struct {
 	B    []int  `json:"b"`
 	Trap string `json:"trap"`
 	R    []int  `json:"r"`
+	Op2  string `json:"op2"`
+	Addr int    `json:"addr"`
+	Off  int    `json:"off"`
 }
 
 // Case: what the executors see
 type Case struct {
+	Mod    string   `json:"mod"`
 	Fn     string   `json:"fn"`
 	Args   []string `json:"args"`   // unsigned decimal
 	ArgTy  []string `json:"argty"`  // i32 | i64
@@ -69,6 +74,57 @@ func ty(w int) string { return fmt.Sprintf("i%d", w) }
 
 type fnDef struct {
 	name, text string
+}
+
+var idxMods = map[string]string{}
+
+// distinct function signatures: the i-th has the parameter list given by the bits of i+1
+func sigParams(i int) string {
+	var sb strings.Builder
+	for n := i + 1; n > 0; n >>= 1 {
+		if n&1 == 1 {
+			sb.WriteString(" i64")
+		} else {
+			sb.WriteString(" i32")
+		}
+	}
+	return sb.String()
+}
+
+// renderIdx: a module with k entries of one index space in front of the entry the probe uses
+func renderIdx(fam string, k int) string {
+	var sb strings.Builder
+	fmt.Fprintf(&sb, "(module $idx_%s_%d\n", fam, k)
+	// separately declared types (with named parameters): they are not functions and must
+	// not show up in the name section
+	sb.WriteString("\t(type $sep0 (func (param $x i32) (result i32)))\n\t(type $sep1 (func (param $y i64) (param $z i32)))\n")
+	switch fam {
+	case "blocktype":
+		for i := 0; i < k; i++ {
+			fmt.Fprintf(&sb, "\t(func $sig%d (param%s)\n\t)\n", i, sigParams(i))
+		}
+		sb.WriteString("\t(func $probe (export \"probe\") (result i32)\n\t\tblock (result i32 i32)\n\t\t\ti32.const 7\n\t\t\ti32.const 9\n\t\tend\n\t\ti32.add\n\t)\n")
+	case "call":
+		for i := 0; i < k; i++ {
+			fmt.Fprintf(&sb, "\t(func $pad%d (result i32)\n\t\ti32.const %d\n\t)\n", i, i)
+		}
+		fmt.Fprintf(&sb, "\t(func $target (result i32)\n\t\ti32.const %d\n\t)\n", 3000+k)
+		sb.WriteString("\t(func $probe (export \"probe\") (result i32)\n\t\tcall $target\n\t)\n")
+	case "local":
+		sb.WriteString("\t(func $probe (export \"probe\") (param $p0 i32) (param $p1 i64) (result i32)\n")
+		for i := 0; i < k; i++ {
+			fmt.Fprintf(&sb, "\t\t(local $l%d i32)\n", i)
+		}
+		fmt.Fprintf(&sb, "\t\t(local $target i32)\n\t\ti32.const %d\n\t\tlocal.set $target\n\t\tlocal.get $target\n\t)\n", 1000+k)
+	case "global":
+		for i := 0; i < k; i++ {
+			fmt.Fprintf(&sb, "\t(global $g%d i32 (i32.const %d))\n", i, i)
+		}
+		fmt.Fprintf(&sb, "\t(global $target i32 (i32.const %d))\n", 2000+k)
+		sb.WriteString("\t(func $probe (export \"probe\") (result i32)\n\t\tglobal.get $target\n\t)\n")
+	}
+	sb.WriteString(")\n")
+	return sb.String()
 }
 
 func build(cases []SpecCase) (string, []Case) {
@@ -102,6 +158,51 @@ func build(cases []SpecCase) (string, []Case) {
 			cs.Args = []string{fmt.Sprint(le(c.A))}
 			cs.ArgTy = []string{t}
 			cs.ResTy = res
+		case "const":
+			t := ty(c.W)
+			v := le(c.A)
+			name = fmt.Sprintf("const_%s_%d", t, v)
+			lit := fmt.Sprint(int64(v))
+			if c.W == 32 {
+				lit = fmt.Sprint(int32(uint32(v)))
+			}
+			def = fmt.Sprintf("\t(func $%s (export \"%s\") (result %s)\n\t\t%s.const %s\n\t)\n", name, name, t, t, lit)
+			cs.Args = []string{}
+			cs.ArgTy = []string{}
+			cs.ResTy = t
+		case "idx":
+			k := int(le(c.A))
+			cs.Mod = fmt.Sprintf("idx_%s_%d", c.Op, k)
+			cs.Fn = "probe"
+			cs.Args = []string{}
+			cs.ArgTy = []string{}
+			cs.ResTy = "i32"
+			if c.Op == "local" {
+				cs.Args = []string{"0", "0"}
+				cs.ArgTy = []string{"i32", "i64"}
+			}
+			cs.Want = fmt.Sprint(le(c.R))
+			idxMods[cs.Mod] = renderIdx(c.Op, k)
+			out = append(out, cs)
+			continue
+		case "mem":
+			st, ld := c.Op, c.Op2
+			stT, ldT := st[:3], ld[:3]
+			name = fmt.Sprintf("mem_%s_%s_o%d", strings.ReplaceAll(st, ".", "_"), strings.ReplaceAll(ld, ".", "_"), c.Off)
+			def = fmt.Sprintf("\t(func $%s (export \"%s\") (param $addr i32) (param $v %s) (result %s)\n", name, name, stT, ldT) +
+				fmt.Sprintf("\t\tlocal.get $addr\n\t\ti64.const 0\n\t\ti64.store offset=%d\n\t\tlocal.get $addr\n\t\ti64.const 0\n\t\ti64.store offset=%d\n", c.Off, c.Off+8) +
+				fmt.Sprintf("\t\tlocal.get $addr\n\t\tlocal.get $v\n\t\t%s offset=%d\n\t\tlocal.get $addr\n\t\t%s offset=%d\n\t)\n", st, c.Off, ld, c.Off)
+			cs.Args = []string{fmt.Sprint(c.Addr), fmt.Sprint(le(c.A))}
+			cs.ArgTy = []string{"i32", stT}
+			cs.ResTy = ldT
+		case "ldb":
+			ld := c.Op2
+			ldT := ld[:3]
+			name = fmt.Sprintf("ldb_%s_o%d", strings.ReplaceAll(ld, ".", "_"), c.Off)
+			def = fmt.Sprintf("\t(func $%s (export \"%s\") (param $addr i32) (result %s)\n\t\tlocal.get $addr\n\t\t%s offset=%d\n\t)\n", name, name, ldT, ld, c.Off)
+			cs.Args = []string{fmt.Sprint(c.Addr)}
+			cs.ArgTy = []string{"i32"}
+			cs.ResTy = ldT
 		case "conv":
 			name = strings.ReplaceAll(c.Op, ".", "_")
 			from, to := "i64", "i32"
@@ -114,6 +215,7 @@ func build(cases []SpecCase) (string, []Case) {
 			cs.ResTy = to
 		}
 		fns[name] = fnDef{name, def}
+		cs.Mod = "module"
 		cs.Fn = name
 		if c.Trap == "" {
 			cs.Want = fmt.Sprint(le(c.R))
@@ -149,7 +251,8 @@ static const kase cases[] = {
 static uint64_t run(int i) {
   const kase *k = &cases[i];
   switch (k->fn) {
-%s  }
+%s  default: return 0;
+  }
   return 0;
 }
 int main(int argc, char **argv) {
@@ -184,11 +287,23 @@ func prep(casesPath, outdir string) {
 	must(os.WriteFile(filepath.Join(outdir, "module.wat"), []byte(wat), 0666))
 	cj, _ := json.Marshal(cases)
 	must(os.WriteFile(filepath.Join(outdir, "cases.json"), cj, 0666))
-	wasm, err := watutil.Wat2Wasm("module.wat", []byte(wat))
-	if err != nil {
-		fmt.Println("WAT2WASM-ERROR", err)
-	} else {
-		must(os.WriteFile(filepath.Join(outdir, "module.wasm"), wasm, 0666))
+	assemble := func(name, text string) {
+		defer func() {
+			if e := recover(); e != nil {
+				fmt.Printf("WAT2WASM-ERROR %s panic: %v\n", name, e)
+			}
+		}()
+		must(os.WriteFile(filepath.Join(outdir, name+".wat"), []byte(text), 0666))
+		wasm, err := watutil.Wat2Wasm(name+".wat", []byte(text))
+		if err != nil {
+			fmt.Printf("WAT2WASM-ERROR %s %v\n", name, err)
+			return
+		}
+		must(os.WriteFile(filepath.Join(outdir, name+".wasm"), wasm, 0666))
+	}
+	assemble("module", wat)
+	for name, text := range idxMods {
+		assemble(name, text)
 	}
 	func() {
 		defer func() {
@@ -208,6 +323,10 @@ func prep(casesPath, outdir string) {
 		var names []string
 		var tab, sw strings.Builder
 		for _, c := range cases {
+			if c.Mod != "module" {
+				fmt.Fprintf(&tab, "  {-1, 0ull, 0ull},\n") // not run in C (keeps indices aligned)
+				continue
+			}
 			if _, ok := idx[c.Fn]; !ok {
 				idx[c.Fn] = len(names)
 				names = append(names, c.Fn)
@@ -217,7 +336,10 @@ func prep(casesPath, outdir string) {
 					}
 					return "(int64_t)" + v
 				}
-				call := fmt.Sprintf("app_%s(%s", c.Fn, cast(c.ArgTy[0], "k->a"))
+				call := fmt.Sprintf("app_%s(", c.Fn)
+				if len(c.Args) >= 1 {
+					call += cast(c.ArgTy[0], "k->a")
+				}
 				if len(c.Args) == 2 {
 					call += ", " + cast(c.ArgTy[1], "k->b")
 				}
@@ -229,11 +351,14 @@ func prep(casesPath, outdir string) {
 				}
 				fmt.Fprintf(&sw, "  case %d: return %s;\n", idx[c.Fn], call)
 			}
-			b := "0"
+			a, b := "0", "0"
+			if len(c.Args) >= 1 {
+				a = c.Args[0]
+			}
 			if len(c.Args) == 2 {
 				b = c.Args[1]
 			}
-			fmt.Fprintf(&tab, "  {%d, %sull, %sull},\n", idx[c.Fn], c.Args[0], b)
+			fmt.Fprintf(&tab, "  {%d, %sull, %sull},\n", idx[c.Fn], a, b)
 		}
 		must(os.WriteFile(filepath.Join(outdir, "host.c"), []byte(fmt.Sprintf(hostC, tab.String(), sw.String())), 0666))
 	}()
@@ -247,8 +372,6 @@ func runWazero(outdir string) {
 	must(err)
 	var cases []Case
 	must(json.Unmarshal(cj, &cases))
-	wasm, err := os.ReadFile(filepath.Join(outdir, "module.wasm"))
-	must(err)
 	out := bufio.NewWriter(os.Stdout)
 	defer out.Flush()
 	enc := json.NewEncoder(out)
@@ -258,13 +381,27 @@ func runWazero(outdir string) {
 			cfg = wazero.NewRuntimeConfigInterpreter()
 		}
 		rt := wazero.NewRuntimeWithConfig(ctx, cfg)
-		mod, err := rt.InstantiateModuleFromBinary(ctx, wasm)
-		if err != nil {
-			enc.Encode(map[string]interface{}{"engine": mode, "instantiate_error": err.Error()})
-			continue
-		}
+		mods := map[string]api.Module{}
+		failed := map[string]bool{}
 		bad := 0
 		for i, c := range cases {
+			mod, ok := mods[c.Mod]
+			if !ok && !failed[c.Mod] {
+				wasm, err := os.ReadFile(filepath.Join(outdir, c.Mod+".wasm"))
+				if err == nil {
+					mod, err = rt.InstantiateModuleFromBinary(ctx, wasm)
+				}
+				if err != nil {
+					failed[c.Mod] = true
+					enc.Encode(map[string]interface{}{"engine": mode, "mod": c.Mod, "instantiate_error": strings.Split(err.Error(), "\n")[0]})
+				} else {
+					mods[c.Mod] = mod
+				}
+			}
+			if failed[c.Mod] {
+				bad++
+				continue
+			}
 			fn := mod.ExportedFunction(c.Fn)
 			if fn == nil {
 				bad++
@@ -294,7 +431,7 @@ func runWazero(outdir string) {
 				}
 				got = fmt.Sprint(v)
 			}()
-			ok := (c.Trap == "" && trap == "" && got == c.Want) || (c.Trap != "" && trap != "" && strings.Contains(trap, c.Trap))
+			ok = (c.Trap == "" && trap == "" && got == c.Want) || (c.Trap != "" && trap != "" && strings.Contains(trap, c.Trap))
 			if !ok {
 				bad++
 				if bad <= 60 {
